@@ -63,7 +63,7 @@ theorem C06_new_runs_next {t t' : T} {ge : Option Bool} {renv : Sprout.Env} {new
       ∀ d ∈ new, d.active = true ∧ d.startedAt = t.metaepoch := by
   obtain ⟨_, _, _, hpc, _, _, hcase⟩ := stepRound_effect h
   refine ⟨hpc, ?_⟩
-  rcases hcase with ⟨hd, _, _, _⟩ | ⟨_, _, _, seeds, t1, _, se, _, rfl⟩
+  rcases hcase with ⟨hd, _, _, _, _⟩ | ⟨_, _, _, seeds, t1, _, se, _, rfl⟩
   · exact ⟨t'.demes, [], by simp, by rw [hd], by simp⟩
   · obtain ⟨old, nd, hd, hf, hnew⟩ := se.demes
     have hu := updateHibernation_forall2 t1 (seeds.map (·.deme))
